@@ -199,6 +199,15 @@ func runC15(c Case, st *Stats) error {
 				reopenAfterWrite = true
 			}
 			lastWasMerge = false
+		case "clock":
+			// both databases see the same virtual time; pairs may expire here, between two comparisons
+			if virtualClock != 0 {
+				st.Class("clock-steps", 1)
+				if effective > 0 {
+					st.Class("clock-steps-after-an-effective-merge", 1)
+				}
+			}
+			setClock(s.T)
 		}
 		if err := compare(i, s.K); err != nil {
 			return err
@@ -250,6 +259,6 @@ func init() { register("C15", runC15) }
 
 func TestC15(t *testing.T) {
 	p := mixedParams{Modes: []int{0, 0, 1}, Segs: []int64{120, 200, 333}, Buckets: []string{"b", "c", "bb"},
-		MinB: 1, MaxB: 2, MaxSteps: 18, MaxOps: 4, ReopenPct: 8, MergePct: 18, Structs: true, Fill: true, NoSPop: true, FaultPct: 12}
+		MinB: 1, MaxB: 2, MaxSteps: 18, MaxOps: 4, ReopenPct: 8, MergePct: 18, Structs: true, Fill: true, NoSPop: true, FaultPct: 12, ClockPct: 25}
 	runProperty(t, "C15", genMixedCase(p), runC15)
 }
